@@ -237,6 +237,28 @@ func hazards() []hazard {
 	hs[len(hs)-1].Files["one/util/u.go"] = "package util\n\nconst One = 1\n"
 	unimp("unimported-package-generic-type", "hq", "hq", "box", "box", "type Box[T any] struct{ V T }\n\ntype X struct{ N int }", "box.Box[box.X]", "", "")
 	unimp("unimported-package-named-like-file-ident", "hn", "hn", "cfg", "cfg", "type C struct{ N int }", "cfg.C", "", "var cfg = 3\n\nvar _ = cfg\n\n")
+	// Several directives in one file, each needing a different package that the
+	// file does not import, the packages sharing one name: the names handed out
+	// for one directive's imports must stay taken for the next directive.
+	{
+		via := func(pkg, ty string) string {
+			return "package " + pkg + "\n\nimport (\n\t\"fmt\"\n\n\t\"scratch/HZ/" + ty + "/util\"\n)\n\nfunc Make(i int) util.U { return util.U{N: i} }\n\nfunc Show(x util.U) string { return fmt.Sprint(x) }\n"
+		}
+		fl := func(name, pkg string) string {
+			return "func " + name + "(ctx context.Context, n int) (string, error) {\n\tvar out string\n\terr := cff.Flow(ctx,\n\t\tcff.Params(n),\n\t\tcff.Results(&out),\n\t\tcff.Task(" + pkg + ".Make),\n\t\tcff.Task(" + pkg + ".Show),\n\t)\n\treturn out, err\n}\n"
+		}
+		files := map[string]string{
+			"va/a.go": via("va", "one"), "vb/b.go": via("vb", "two"),
+			"one/util/u.go": "package util\n\ntype U struct{ N int }\n", "two/util/u.go": "package util\n\ntype U struct{ N, M int }\n",
+		}
+		imp := "import (\n\t\"context\"\n\n\t\"go.uber.org/cff\"\n\t\"scratch/HZ/va\"\n\t\"scratch/HZ/vb\"\n)\n\n"
+		add("two-directives-needing-unimported-packages-of-one-name", "accept", imp+fl("Run", "va")+"\n"+fl("Run2", "vb"), files)
+		add("three-directives-needing-unimported-packages-of-one-name", "accept", imp+fl("Run", "va")+"\n"+fl("Run2", "vb")+"\n"+fl("Run3", "va"), files)
+		add("directives-needing-unimported-package-named-like-added-import", "accept",
+			"import (\n\t\"context\"\n\n\t\"go.uber.org/cff\"\n\t\"scratch/HZ/vt\"\n)\n\n"+fl("Run", "vt")+"\n"+fl("Run2", "vt"),
+			map[string]string{"vt/a.go": "package vt\n\nimport (\n\t\"fmt\"\n\n\t\"scratch/HZ/my/time\"\n)\n\nfunc Make(i int) time.T { return time.T{N: i} }\n\nfunc Show(x time.T) string { return fmt.Sprint(x) }\n",
+				"my/time/t.go": "package time\n\ntype T struct{ N int }\n"})
+	}
 	// The same package imported twice under different names, or blank: whatever
 	// name the generated code picks for it must be one the file binds, and must
 	// be the same in every process.
